@@ -292,7 +292,7 @@ def _run_shard(exe, args, lines, timeout, prefix=None, env=None):
     return sh(cmd, inp="\n".join(lines) + "\n", timeout=timeout, env=env)
 
 
-def run_pair(mode, args, lines, shards=12, timeout=900, harness_prefix=None, race=False, henv=None):
+def run_pair(mode, args, lines, shards=12, timeout=900, harness_prefix=None, race=False, henv=None, model_too=True):
     """run harness and modelrun on the same case lines (sharded over processes).
     Output lines are '<local-idx> <payload>'; returns (impl_payloads, model_payloads, failures)
     where payload lists are aligned with `lines` (None where a process died) and failures is a list of
@@ -314,7 +314,7 @@ def run_pair(mode, args, lines, shards=12, timeout=900, harness_prefix=None, rac
                               prefix=harness_prefix if which == "impl" else MODEL_PREFIX, env=henv if which == "impl" else None)
         return which, lo, hi, rc, o
     with ThreadPoolExecutor(max_workers=16) as ex:
-        futs = [ex.submit(work, w, lo, hi) for (lo, hi) in bounds for w in ("impl", "model")]
+        futs = [ex.submit(work, w, lo, hi) for (lo, hi) in bounds for w in (("impl", "model") if model_too else ("impl",))]
         for fu in futs:
             which, lo, hi, rc, o = fu.result()
             tgt = impl if which == "impl" else model
